@@ -53,3 +53,10 @@ Theorem C20_oom_nowrap : forall cap r, 0 < cap -> 0 <= r -> 1000 * r < 2^63 ->
   mem_req_to_oom cap r = adj_of cap r.
 Proof. exact mem_req_to_oom_nowrap. Qed.
 Print Assumptions C20_oom_nowrap.
+
+(* ... and, since 1000*memRequest is formed in 128 bits (math/bits), for EVERY capacity an int64 can hold and
+   every request the table construction can produce (up to the capacity plus one step) *)
+Theorem C20_oom_exact_all_capacities : forall cap r, 1000 <= cap < 2^63 -> 0 <= r <= cap + cap / 1000 + 1 ->
+  mem_req_to_oom cap r = adj_of cap r.
+Proof. exact mem_req_to_oom_exact_le_cap. Qed.
+Print Assumptions C20_oom_exact_all_capacities.
